@@ -9,7 +9,7 @@ PROPS = {
              "distinct = distinct (spec, state, messages); non-trivial = the machine moved and the spec has actions.",
         assumptions=["histories in which a guard saw several candidates with different verdicts are not compared (documented as arbitrary)"],
         runs=[dict(component="persist", require="Corr.PersistCorr", require_vo="Corr/PersistCorr.vo",
-                   n=dict(quick=1500, thorough=16000), shard=100, opts=dict(mode="c09"),
+                   n=dict(quick=1500, thorough=48000), shard=100, opts=dict(mode="c09"),
                    evals=dict(M="c09_mismatches", V="c09_violations", NT="c09_nontrivial"), counts=("NT",))],
     ),
 }
